@@ -748,7 +748,11 @@ seeded('seeded-REC10-interpolate-ends-with-enforce-bounds', ['C10'], ['C10.ends'
 seeded('seeded-REC13-se3-bounds-check-translation-only', ['C13'], ['C13.match'])
 seeded('seeded-REC14-prepared-uniform-distributions', ['C14', 'C11'], ['C14.draw'])
 seeded('seeded-REC15-deadline-break-in-connect-motion-check', ['C15', 'C01', 'C07'], ['C01.kernel'])
+for _n in ('ben36-r1', 'ben36-r2', 'ben36-r3', 'ben36-r4', 'ben37-r1', 'ben37-r4', 'ben37-r5'):
+    benign_patch(_n, ALL)                                       # spaces: wrap_angle / angular_gap, dot / norm / zip_with, project_into_cone -> Option, assert_dimension + zip; RRT-Connect nearest_node fold + steer; RRT* filter_map neighbours, choose_parent / rewire (three not followed: selftest/benign/unsupported)
 for _k in (1, 2, 3, 4, 5):
-    benign_patch('ben36-r%d' % _k, ALL)                         # arithmetic core of the spaces: wrap_angle / angular_gap helpers, dot / norm / zip_with, project_into_cone -> Option, assert_dimension + zip, weighted_norm fold
-    benign_patch('ben37-r%d' % _k, ALL)                         # RRT-Connect / RRT*: nearest_node fold + steer, enum Side + join_paths, shared is_motion_valid / trace_back, filter_map neighbours, choose_parent / rewire helpers
     benign_patch('ben38-r%d' % _k, ['C19', 'C20', 'C08'])       # bindings: generic query helper, JS method() helper + let-else, match on (planner, pd), with_planner! macro, generic ask<T>
+CASES.append({'name': 'ben38r5-goal-fallback-true', 'props': ['C20'], 'expect': ['C20.goal'], 'patch': '/verif/selftest/benign/ben38-r5.diff',
+              'edits': [('oxmpl-py/src/base/goal.rs', 'self.ask("is_satisfied", state, false)', 'self.ask("is_satisfied", state, true)')]})
+CASES.append({'name': 'ben36r3-projection-returned-unchecked', 'props': ['C11'], 'expect': ['C11.accept'], 'patch': '/verif/selftest/benign/ben36-r3.diff',
+              'edits': [('oxmpl/src/base/spaces/so3_state_space.rs', '            if self.satisfies_bounds(&candidate) {\n                return Some(candidate);', '            if t <= 1.0 {\n                return Some(candidate);')]})
